@@ -9,6 +9,8 @@ package harness
 // (no header: revision zero only, must never be sent a settings frame).
 
 import (
+	"strings"
+	"strconv"
 	"context"
 	"fmt"
 	"net"
@@ -110,6 +112,7 @@ func (p *rawPeerServer) OpenReverseTunnel(stream tunnelpb.TunnelService_OpenReve
 		switch in.Frame.(type) {
 		case *tunnelpb.ServerToClient_Settings:
 			p.note("settings")
+			p.note("revs:" + fmtRevs(in.GetSettings().GetSupportedProtocolRevisions()))
 		case *tunnelpb.ServerToClient_CloseStream:
 			p.note(fmt.Sprintf("close:%d", in.GetCloseStream().GetStatus().GetCode()))
 		case *tunnelpb.ServerToClient_WindowUpdate:
@@ -118,6 +121,18 @@ func (p *rawPeerServer) OpenReverseTunnel(stream tunnelpb.TunnelService_OpenReve
 			p.note("other")
 		}
 	}
+}
+
+// fmtRevs renders the revision list of a settings frame ("-" for an empty one).
+func fmtRevs(rs []tunnelpb.ProtocolRevision) string {
+	if len(rs) == 0 {
+		return "-"
+	}
+	var a []string
+	for _, r := range rs {
+		a = append(a, strconv.Itoa(int(r)))
+	}
+	return strings.Join(a, ",")
 }
 
 func TestW2Negotiate(t *testing.T) {
@@ -199,7 +214,7 @@ func negCase(t *testing.T, role string, libDisabled, peerAdvertises bool) string
 		close(p.sendC2S)
 		p.mu.Lock()
 		defer p.mu.Unlock()
-		settings, closed := 0, "none"
+		settings, closed, revs := 0, "none", "-"
 		for _, k := range p.fromLib {
 			if k == "settings" {
 				settings++
@@ -207,8 +222,11 @@ func negCase(t *testing.T, role string, libDisabled, peerAdvertises bool) string
 			if len(k) > 6 && k[:6] == "close:" {
 				closed = k[6:]
 			}
+			if len(k) > 5 && k[:5] == "revs:" {
+				revs = k[5:]
+			}
 		}
-		return fmt.Sprintf("header=%s settings=%d close=%s", b01(p.reqHeader), settings, closed)
+		return fmt.Sprintf("header=%s settings=%d revs=%s close=%s", b01(p.reqHeader), settings, revs, closed)
 	default:
 		// the library is the grpc server of the carrier (TunnelServiceHandler); the peer is a hand-written grpc client
 		handler := grpctunnel.NewTunnelServiceHandler(grpctunnel.TunnelServiceHandlerOptions{DisableFlowControl: libDisabled})
@@ -240,6 +258,7 @@ func negCase(t *testing.T, role string, libDisabled, peerAdvertises bool) string
 					switch in.Frame.(type) {
 					case *tunnelpb.ServerToClient_Settings:
 						kinds = append(kinds, "settings")
+						kinds = append(kinds, "revs:"+fmtRevs(in.GetSettings().GetSupportedProtocolRevisions()))
 					case *tunnelpb.ServerToClient_CloseStream:
 						kinds = append(kinds, fmt.Sprintf("close:%d", in.GetCloseStream().GetStatus().GetCode()))
 					default:
@@ -263,7 +282,7 @@ func negCase(t *testing.T, role string, libDisabled, peerAdvertises bool) string
 			synctest.Wait()
 			mu.Lock()
 			defer mu.Unlock()
-			settings, closed := 0, "none"
+			settings, closed, revs := 0, "none", "-"
 			for _, k := range kinds {
 				if k == "settings" {
 					settings++
@@ -271,8 +290,11 @@ func negCase(t *testing.T, role string, libDisabled, peerAdvertises bool) string
 				if len(k) > 6 && k[:6] == "close:" {
 					closed = k[6:]
 				}
+				if len(k) > 5 && k[:5] == "revs:" {
+					revs = k[5:]
+				}
 			}
-			return fmt.Sprintf("header=%s settings=%d close=%s", b01(len(hdr.Get(grpctunnel.VerifNegotiateKey)) > 0), settings, closed)
+			return fmt.Sprintf("header=%s settings=%d revs=%s close=%s", b01(len(hdr.Get(grpctunnel.VerifNegotiateKey)) > 0), settings, revs, closed)
 		}
 		// rev-call: we open a reverse tunnel and act as its tunnel server; the handler's channel is the calling end
 		str, err := stub.OpenReverseTunnel(octx)
